@@ -162,6 +162,18 @@ pub fn run(tier: Tier) -> i32 {
         }
     });
     acc.merge(a2);
+    // third engine: "repeat, then switch" histories a^k b (k <= 8) on one cursor object — an adaptive
+    // mode that only switches on after several similar operations is invisible to the other two
+    let a3 = par_for(enum_files.len(), 1, &deadline, |i, acc| {
+        let (name, spec) = &enum_files[i];
+        if let Ok((entries, bytes)) = build_file(spec) {
+            let (h, o) = crate::cursor_bfs::repeat_then_switch(name, spec, &entries, &bytes, 8, "C16", acc);
+            acc.count("repeat_then_switch_histories", h);
+            acc.transitions += o;
+            acc.evaluations += o;
+        }
+    });
+    acc.merge(a3);
     // opening a file of every codec reads the trailer only
     for (c, lv) in vlib::fam::CODECS_ONE {
         for levels in [0u8, 2] {
@@ -226,7 +238,7 @@ pub fn run(tier: Tier) -> i32 {
     rep.acc = acc;
     let closed_all = rep.acc.counters.get("files_not_closed").copied().unwrap_or(0) == 0;
     rep.set("exhaustive", json!(closed_all));
-    rep.set("rule", json!("E1: the C03 closure BFS re-run over a counting source: for EVERY reachable cursor state x EVERY operation of the alphabet the number of block loads (= reads that start at the file offset of a block, i.e. of its length prefix; seeks that read nothing do not count, and reading the same block again right away counts once) during that one public call must be <= 2*(index_levels+2); a second engine enumerates every history of length <= d (5 quick, 6 thorough) on four deep files with no deduplication; E2 growth family: n entries (sizes in `bound`) x index_levels 0..=3 x two entry shapes, fresh and positioned cursors (sampled positions incl. after relative walks) x {first,last,next,prev,GE/LE/EQ on present and absent probes} plus 200-step next and prev walks, each single step within the bound, and no operation reading more than half of the file (nor more than 4x what that many largest blocks account for): that would be a scan, however few calls it takes; Reader::new must not read below the last 22 bytes (on a file of every codec), and Reader::into_cursor followed by the first operation must together stay within the bound of one operation. maxima.growth_max_loads_L*_n* show the measured maximum does not grow with n"));
+    rep.set("rule", json!("E1: the C03 closure BFS re-run over a counting source: for EVERY reachable cursor state x EVERY operation of the alphabet the number of block loads (= reads that start at the file offset of a block, i.e. of its length prefix; seeks that read nothing do not count, and reading the same block again right away counts once) during that one public call must be <= 2*(index_levels+2); a second engine enumerates every history of length <= d (5 quick, 6 thorough) on four deep files with no deduplication; a third runs a^k b (k <= 8) for every pair of operations on one cursor object (adaptive behaviour that needs repetition); E2 growth family: n entries (sizes in `bound`) x index_levels 0..=3 x two entry shapes, fresh and positioned cursors (sampled positions incl. after relative walks) x {first,last,next,prev,GE/LE/EQ on present and absent probes} plus 200-step next and prev walks, each single step within the bound, and no operation reading more than half of the file (nor more than 4x what that many largest blocks account for): that would be a scan, however few calls it takes; Reader::new must not read below the last 22 bytes (on a file of every codec), and Reader::into_cursor followed by the first operation must together stay within the bound of one operation. maxima.growth_max_loads_L*_n* show the measured maximum does not grow with n"));
     rep.assume("'every reachable state' means closed under the hook fingerprint (see C03); the second engine does not depend on it");
     rep.set("bound", json!({"closure_files": files.iter().map(|f| f.0.clone()).collect::<Vec<_>>(), "growth_sizes": ns}));
     rep.finish()
